@@ -113,6 +113,7 @@ class Models:
         self.max_per_type = max_per_type
         self._models = {}
         self._kind = {}
+        self._discr = {}
         self._default = {}
         self._trie = {}
         self._core = {}
@@ -231,6 +232,20 @@ class Models:
                 pairs.append((inner[i], inner[(i + 1) % n]))
             if deep and n <= 12:
                 pairs = [(a, b) for a in inner for b in inner]
+            elif deep and self.has_display(k[1]):
+                # adjacency matters (what a rule ends with x what the next one starts with): pair every
+                # distinct ending with every distinct beginning
+                tid_ = self.kind(k[1])[1]
+                heads, tails = {}, {}
+                for v in inner:
+                    try:
+                        txt = self.render(tid_, v)
+                    except ModelError:
+                        continue
+                    heads.setdefault(re.sub(r"\d", "0", txt[:3]), v)
+                    tails.setdefault(re.sub(r"\d", "0", txt[-3:]), v)
+                hs, ts = list(heads.values())[:14], list(tails.values())[:14]
+                pairs += [(a, b) for a in ts for b in hs]
             seen = set()
             for a, b in pairs:
                 if (a, b) not in seen:
@@ -604,6 +619,34 @@ class Models:
         for v in thr.get(("val", term), ()):
             if v not in out:
                 out.append(v)
+        # a list whose elements the parent discriminates on (`rule.operator` picks the separator): every
+        # candidate list is also taken with each element set to each discriminated variant
+        if tid not in self._discr:
+            dm = {}
+            for p_ in self.paths.get(tid, ()):
+                for a_, _ in p_.pc:
+                    if a_[0] == "is" and a_[1][0] == "fld" and a_[1][1][0] == "elem":
+                        dm.setdefault(a_[1][1][1], {}).setdefault((a_[1][1][2], a_[1][2]), set()).add(a_[2])
+            self._discr[tid] = dm
+        discr = self._discr[tid].get(term)
+        if discr and self.kind(ty)[0] == "list":
+            extra = []
+            for v in out:
+                if v[0] != "list":
+                    continue
+                for (i_, fname), _vs in discr.items():
+                    if i_ >= len(v[1]) or v[1][i_][0] != "adt":
+                        continue
+                    el = v[1][i_]
+                    fty = dict(self.fields(el[1], el[2])).get(fname)
+                    if fty is None:
+                        continue
+                    for var in self.variants(fty):
+                        new_el = adt(el[1], el[2], tuple((n_, self.default_variant(fty, var) if n_ == fname else x_) for n_, x_ in el[3]))
+                        nv = ("list", v[1][:i_] + (new_el,) + v[1][i_ + 1:])
+                        if nv not in out and nv not in extra:
+                            extra.append(nv)
+            out += extra
         return out
 
     def solve_path(self, tid, path, thr):
@@ -882,22 +925,36 @@ class Models:
         if len(ms) <= self.core_cap:
             self._core[tid] = [m for _, m in ms]
             return self._core[tid]
-        # first and last model of each path, then thin by distinct (first char, last char, length class)
+        # diversity of what the text starts and ends with matters to the parents (adjacency): one model per
+        # (beginning, ending) class first - spread over the paths -, then one per path not yet represented
+        def cls(t):
+            return "".join("0" if c.isdigit() else "A" if c.isupper() else "a" if c.islower() else c for c in t)
+        seen_sig, seen_path = {}, set()
+        order = []
+        for rnd in range(max(len(l) for l in by_path.values())):
+            for i in sorted(by_path):
+                if rnd < len(by_path[i]):
+                    order.append((i, by_path[i][rnd]))
+            if len(order) > 6000:
+                break
+        for i, m in order:
+            try:
+                txt = self.render(tid, m)
+            except ModelError:
+                continue
+            key = (cls(txt[:2]), cls(txt[-2:]))
+            if key not in seen_sig:
+                seen_sig[key] = m
+                seen_path.add(i)
+                chosen.append(m)
+            if len(chosen) >= self.core_cap:
+                break
         for i in sorted(by_path):
-            l = by_path[i]
-            for m in (l[0], l[-1]):
-                if m not in chosen:
-                    chosen.append(m)
-        if len(chosen) > self.core_cap:
-            sig = {}
-            for m in chosen:
-                s = self.render(tid, m)
-                key = (s[:2], s[-2:], min(len(s), 12))
-                sig.setdefault(key, m)
-            chosen = list(sig.values())
-        if len(chosen) > self.core_cap:
-            step = len(chosen) / float(self.core_cap)
-            chosen = [chosen[int(j * step)] for j in range(self.core_cap)]
+            if len(chosen) >= self.core_cap + 8:
+                break
+            if i not in seen_path:
+                chosen.append(by_path[i][0])
+                seen_path.add(i)
         self._core[tid] = chosen
         return chosen
 
